@@ -221,6 +221,11 @@ def check(run, prog):
         res.append((a, compare(o, vfs, a)))
     o, vfs = runs.run({"only": {"sub": {"x.c": "\n"}}, "t.c": "\n"}, ["only"])
     res.append((["only"], compare(o, vfs, ["only"])))
+    # a directory argument whose own name looks like a source file is still a directory
+    t3 = {"libft.c": {"x.c": "\n", "sub": {"y.h": "@E\n", "z.txt": "x"}}, "inc.h": {"k.h": "\n"}, "a.c": "\n", "lib.cc": {"w.c": "\n"}}
+    for a in (["libft.c"], ["libft.c", "a.c"], ["inc.h", "libft.c/sub"], ["lib.cc"], ["a.c", "inc.h"]):
+        o, vfs = runs.run(t3, a)
+        res.append((a, compare(o, vfs, a)))
     w = first(res)
     run.ob("R-15.2", f"{main.key}::directory-extends-worklist", w is None,
            f"a directory argument does something other than extending the work list with its recursive matches: {w}", ex)
